@@ -195,6 +195,17 @@ CHECKS = {
     note="Exact oracle (file-system snapshot) on model-generated inputs; SetSent runs in a child process because it may log.Fatalf.",
     technique="TLA+ path-resolution model generates identifiers; real calls judged by file-system snapshots via TLC trace validation",
     design="4 C12"),
+ "C15": dict(
+    level="model_checking",
+    text="Telnet.tla explores all segmentations of the peer's login lines and payload and all fill sizes of the private login reader: "
+         "CleanStream holds with a buffered handover and fails with a raw one (OverRead), DialReturns holds iff the login is bounded "
+         "by the deadline. Binding over loopback TCP: Dial/DialTimeout/DialContext/DialURL against the package's own listener (payload "
+         "both ways; callsigns and passwords incl. spaces, non-ASCII, 1 KB); Accept against a raw client with planned TCP writes "
+         "(coalesced ... byte-wise, with/without gaps); Dial* against raw servers (silent, partial prompt, garbage, early close, "
+         "stall, split prompts, pipelined payload, MOTD) with 150-400 ms deadlines; judged by TelnetPropsTrace.tla.",
+    note="Real TCP: coalescing of back-to-back writes on loopback is likely but not guaranteed; deadlines are judged with 2 s slack.",
+    technique="TLA+ segmentation/handover model (design, deviations) + TLC validation of recorded real TCP logins",
+    design="4 C15"),
 }
 
 NOT_YET = "check not built yet (work in progress; see DESIGN.md section 8 for the build order)"
